@@ -45,6 +45,15 @@ pub fn run_offset(ctx: &mut Ctx) {
             Err(_) => ctx.out.m("offset", "panic", &["offset_enc", &n.to_string()]),
         }
     }
+    // lengths that do not fit the offset word: debug_assert in debug builds, truncation in release builds
+    for n in [1usize << 32, (1usize << 32) + 1, (1usize << 40) + 5, usize::MAX - 1, usize::MAX] {
+        let r = catch_unwind(|| encode_length(n));
+        let s = match r {
+            Ok(b) => if cfg!(debug_assertions) { format!("ok {}", hex(&b)) } else { hex(&b) },
+            Err(_) => "panic".to_string(),
+        };
+        ctx.out.m("offset", &s, &[if cfg!(debug_assertions) { "offset_enc_dbg" } else { "offset_enc" }, &n.to_string()]);
+    }
     // read_offset on arbitrary byte strings
     let mut inputs: Vec<Vec<u8>> = vec![vec![], vec![0], vec![0, 0], vec![0, 0, 0], vec![255; 3], vec![255; 4], vec![255; 5]];
     let nrand = if ctx.thorough { 20000 } else { 2000 };
@@ -459,6 +468,8 @@ pub fn run_listvar(ctx: &mut Ctx) {
                     ctx.out.r("C16", "listvar", matches!(res, Ok(None)) && calls.is_empty() && hint.is_none(), &["over_limit_fails_before_work", "listvar", &m.to_string(), "v", &hx]);
                 } else {
                     ctx.out.r("C16", "listvar", res == res0, &["within_limit_same_as_unlimited", "listvar", &m.to_string(), "v", &hx]);
+                    // a list within its limit is a valid serialization of the bounded-list schema (C04)
+                    ctx.out.r("C04", "listvar", res == res0, &["within_limit_same_as_unlimited", "listvar", &m.to_string(), "v", &hx]);
                 }
             }
             if let Some(a) = announced {
